@@ -61,8 +61,29 @@ theorem imsaak_when_fajr_extreme (p : Params α) (hI : Sc.eqb p.intImsaak 0.0 = 
 theorem imsaak_extreme_branch (p : Params α) (run : Params α → Except Panic (PHours α)) (h1 h0 h2 : PHours α)
     (hr1 : run (imsaakParams1 p) = .ok h1) (hr0 : run p = .ok h0) (he : fajrExtreme h0 = true)
     (hr2 : run (imsaakParams2 p) = .ok h2) :
-    imsaakOf p run = optTime (imsaakParams2 p) .Fajr h2.fajr := by
+    imsaakOf p run = flagExtreme (optTime (imsaakParams2 p) .Fajr h2.fajr) := by
   cases h : fajrExtreme h1 <;> simp [imsaakOf, hr1, hr0, he, hr2, h]
+
+/-- what the fallback returns is flagged extreme, with the time untouched -/
+theorem flagExtreme_spec (r : Except Panic (Option PT)) (t : PT) (h : flagExtreme r = .ok (some t)) :
+    t.extreme = true ∧ ∃ t0, r = .ok (some t0) ∧ t.time = t0.time := by
+  unfold flagExtreme at h
+  split at h
+  · rename_i t0
+    simp only [Except.ok.injEq, Option.some.injEq] at h
+    subst h
+    exact ⟨rfl, t0, rfl, rfl⟩
+  · rename_i hne
+    exact absurd h (by intro h'; exact hne t h')
+
+/-- **"when Fajr is extreme Imsaak is 1.5 minutes before it and extreme too"**: whatever the Fajr
+    computed with the reduced offset looks like, the Imsaak the fallback reports carries the flag -/
+theorem imsaak_extreme_is_flagged (p : Params α) (run : Params α → Except Panic (PHours α)) (h1 h0 h2 : PHours α)
+    (hr1 : run (imsaakParams1 p) = .ok h1) (hr0 : run p = .ok h0) (he : fajrExtreme h0 = true)
+    (hr2 : run (imsaakParams2 p) = .ok h2) (t : PT) (ht : imsaakOf p run = .ok (some t)) :
+    t.extreme = true := by
+  rw [imsaak_extreme_branch p run h1 h0 h2 hr1 hr0 he hr2] at ht
+  exact (flagExtreme_spec _ t ht).1
 
 /-- **an Isha interval makes Isha = Maghrib + interval and a Fajr interval Fajr = Shurooq − interval**
     (whatever the policy did before, unless the policy is one of the three the interval pass skips) -/
